@@ -1,6 +1,7 @@
 package wl
 
 import (
+	"encoding/hex"
 	"encoding/json"
 	"fmt"
 	"math/rand"
@@ -243,6 +244,19 @@ func c07case(c *wk.Ctx, idx int, r *rand.Rand, f c07fault) {
 	case cerr == nil:
 		c.Viol("C07", idx, "accepted/"+tag, fmt.Sprintf("fault %s arg %d: key exchange completed although the reply was inconsistent", tag, f.Arg), f)
 	}
+	// a lying server may go on: after the client has given up, it sends encrypted service traffic under the key it
+	// computed (new_session_created announcing a salt, then an update) — still nothing may be persisted or sent
+	if hsKey, hsSalt, ok := c07serverKey(w); ok {
+		for _, cn := range srv.Conns() {
+			pad := func(n int) []byte { return rbytes(r, (16-(32+n)%16)%16) }
+			for _, body := range [][]byte{refserver.NewSessionCreated(1, int64(r.Uint64()), int64(r.Uint64())), apiUpdateBody(r)} {
+				in := mtp.Inner{Salt: hsSalt, Session: int64(r.Uint64()), MsgID: srv.NextMsgID(1), SeqNo: 1, Body: body}
+				cn.SendRaw(mtp.Seal(hsKey, in, 8, pad(len(body))))
+			}
+		}
+		c.Count("followup.encrypted_after_abort", 1)
+		time.Sleep(60 * time.Millisecond)
+	}
 	// bounded drain, then: nothing persisted, nothing encrypted ever sent
 	time.Sleep(30 * time.Millisecond)
 	if _, err := os.Stat(sess); err == nil {
@@ -266,4 +280,23 @@ func jsonHas(raw json.RawMessage, key string) bool {
 	json.Unmarshal(raw, &d)
 	_, ok := d[key]
 	return ok
+}
+
+// c07serverKey returns the auth key and salt the server derived, if the exchange got that far.
+func c07serverKey(w *world) ([]byte, int64, bool) {
+	w.mu.Lock()
+	defer w.mu.Unlock()
+	for _, e := range w.evs {
+		if e.Ev == "hs.done" {
+			var d map[string]interface{}
+			json.Unmarshal(e.Data, &d)
+			k, err := hex.DecodeString(fmt.Sprint(d["auth_key"]))
+			var salt int64
+			fmt.Sscan(fmt.Sprint(d["salt"]), &salt)
+			if err == nil && len(k) == 256 {
+				return k, salt, true
+			}
+		}
+	}
+	return nil, 0, false
 }
